@@ -73,7 +73,7 @@ fn build_app(apps: &[Value], idx: usize, t: &router::Table, cors: Option<CORS>, 
     let app = &apps[idx - 1];
     let mut o = match cors { Some(c) => Ohkami::with((c,), ()), None => Ohkami::new(()) };
     for it in arr(&app["items"]) {
-        let lit = util::leak(t.route_literal(&it["segs"], pbase));
+        let lit = util::leak(t.route_literal(&it["segs"], pbase, "c"));
         if s(&it["t"]) == "route" {
             v::apply_handlers(&mut o, with_methods(v::handler_set(lit), arr(&it["methods"]), i(&it["h"])));
         } else {
